@@ -1,6 +1,6 @@
 (* C13 driver: runs the extracted ReadAdapter model on "<d|r> <chunks> <ops>" and prints the ';'-separated results
    in the harness' canonical form.  With a leading "S" instead of d/r the extracted SliceReader model is run on the
-   concatenated chunks.  `drain` is glue (repeat read_u8 until it fails), not a model operation. *)
+   concatenated chunks, with a leading "C<p>" the extracted std::io::Cursor model positioned at p.  `drain` is glue (repeat read_u8 until it fails), not a model operation. *)
 open Zio
 open ReadAdapter
 
@@ -123,6 +123,9 @@ let eval = function
       let ops = if ops = "-" then [] else Stdlib.List.map parse_op (split_on ',' ops) in
       let res =
         if prof = "S" then run_ops slice_step (s_init (Stdlib.List.concat cs)) ops
+        else if starts prof "C" then
+          (* "C<p>": the extracted Cursor model over the concatenated chunks, positioned at p (p may exceed the length) *)
+          run_ops cursor_step (c_init (Stdlib.List.concat cs) (num prof 1)) ops
         else run_ops (fun o s -> if cov_mode then classify o s; adapter_step (prof = "d") o s) (a_init cs) ops
       in
       if cov_mode then "" else Stdlib.String.concat ";" res
